@@ -19,6 +19,8 @@ import (
 	"fmt"
 	"io"
 	"os"
+	"os/signal"
+	"syscall"
 )
 
 type vModelT struct {
@@ -164,7 +166,57 @@ func vStdoutCapture() {
 	vStdoutOld, vStdoutR = os.Stdout, r
 	os.Stdout = w
 }
+// vStdoutToFile: like vStdoutCapture, but os.Stdout becomes a regular file, so that vFileSizeLimit applies
+// to it; vStdout returns what it holds.
+var vStdoutFile *os.File
+
+func vStdoutToFile() {
+	f, err := os.CreateTemp("", "verif-stdout-")
+	if err != nil {
+		panic(err)
+	}
+	vStdoutOld, vStdoutFile = os.Stdout, f
+	os.Stdout = f
+}
+
+// vFileSizeLimit(n): from now on every regular file (the files the code under test creates, and os.Stdout
+// after vStdoutToFile) accepts at most n bytes; the write that would exceed n stores what fits and fails
+// (natively: RLIMIT_FSIZE, EFBIG). vFileSizeLimit(-1) lifts the limit.
+var vOldFsize *syscall.Rlimit
+
+func vFileSizeLimit(n int) {
+	if n < 0 {
+		if vOldFsize != nil {
+			syscall.Setrlimit(syscall.RLIMIT_FSIZE, vOldFsize)
+			vOldFsize = nil
+		}
+		return
+	}
+	signal.Ignore(syscall.SIGXFSZ)
+	var cur syscall.Rlimit
+	if err := syscall.Getrlimit(syscall.RLIMIT_FSIZE, &cur); err != nil {
+		panic(err)
+	}
+	if vOldFsize == nil {
+		c := cur
+		vOldFsize = &c
+	}
+	cur.Cur = uint64(n)
+	if err := syscall.Setrlimit(syscall.RLIMIT_FSIZE, &cur); err != nil {
+		panic(err)
+	}
+}
+
 func vStdout() string {
+	if vStdoutFile != nil {
+		name := vStdoutFile.Name()
+		vStdoutFile.Close()
+		b, _ := os.ReadFile(name)
+		os.Remove(name)
+		os.Stdout = vStdoutOld
+		vStdoutFile = nil
+		return string(b)
+	}
 	if vStdoutR == nil {
 		return ""
 	}
@@ -197,6 +249,7 @@ func vName(prefix string, idx ...int) string {
 func vRun(h func()) (failed []string, stopped string, panicked string) {
 	vFailures = nil
 	func() {
+		defer vFileSizeLimit(-1)
 		defer func() {
 			if r := recover(); r != nil {
 				if s, ok := r.(vStop); ok {
@@ -373,11 +426,23 @@ func init() {
 		},
 		"vStdoutCapture": func(ip *Interp, fn *ssa.Function, a []Value) Value {
 			ip.stdout = nil
+			ip.stdoutIsFile = false
+			return nil
+		},
+		"vStdoutToFile": func(ip *Interp, fn *ssa.Function, a []Value) Value {
+			ip.stdout = nil
+			ip.stdoutIsFile = true
+			return nil
+		},
+		"vFileSizeLimit": func(ip *Interp, fn *ssa.Function, a []Value) Value {
+			ip.fsizeLimit = int(ip.concInt(a[0]))
+			ip.fsizeLimitOn = ip.fsizeLimit >= 0
 			return nil
 		},
 		"vStdout": func(ip *Interp, fn *ssa.Function, a []Value) Value {
 			r := strFromTerms(ip.stdout)
 			ip.stdout = nil
+			ip.stdoutIsFile = false
 			return r
 		},
 		"vNumCPU": func(ip *Interp, fn *ssa.Function, a []Value) Value {
